@@ -16,7 +16,7 @@ Definition show_why (w : why) : string :=
   match w with
   | WParse => "parse" | WParam => "param" | WWsParam => "wsparam" | WSplit => "split" | WRegex => "regex"
   | WEscape => "escape" | WOptMods => "optmods" | WAsgMods => "asgmods" | WMultiBool => "multibool"
-  | WPrimRef => "primref" | WBoolRep => "boolrep" | WRuleRef => "ruleref" | WClsRef => "clsref"
+  | WPrimRef => "primref" | WBoolRep => "boolrep" | WBoolMany => "boolmany" | WRuleRef => "ruleref" | WClsRef => "clsref"
   | WRegistration => "registration"
   end.
 
